@@ -76,9 +76,14 @@ def gen_cases(tier, seed):
                 for _ in range(2):
                     add(cd, r.choice(bd), r.choice(tods), f)
     # omitted reference time == injected now
+    # (the host is modelled as being `off` minutes away from UTC, see attach.FixedNow) and, with the REAL clock, in a
+    # process whose zone is set so far from UTC that the local and the UTC calendar day differ right now
     for cd in concepts:
-        d = r.choice(cal.boundary_dates(2020, 2032))
-        cases.append({"c": cd[0], "dow": cd[1], "f": allforms[cd][0], "ts": None, "now": C.iso(C.at(d, r.choice(tods)))})
+        for off in (0, 13 * 60, -11 * 60, 330):
+            d = r.choice(cal.boundary_dates(2020, 2032))
+            cases.append({"c": cd[0], "dow": cd[1], "f": r.choice(allforms[cd]), "ts": None, "off": off,
+                          "now": C.iso(C.at(d, r.choice(tods)))})
+        cases.append({"c": cd[0], "dow": cd[1], "f": allforms[cd][0], "ts": None, "real": 1})
     r.shuffle(cases)
     return cases
 
@@ -100,29 +105,72 @@ def expected(concept, dow, ts):
     return V.T(e.year, e.month, e.day)
 
 
+def _real_clock(case, ctx):
+    """omitted reference time under the real clock: the zone of this process is moved 12-13 h away from UTC (so that the
+    local and the UTC calendar day differ at this very moment), the call is made with nothing patched, and the result must
+    be what the local wall clock read just before or just after the call gives"""
+    import os
+    import time
+    from datetime import datetime as _dt, timezone as _tz
+    old = os.environ.get("TZ")
+    os.environ["TZ"] = "VFB-13" if _dt.now(_tz.utc).hour >= 12 else "VFA+12"
+    time.tzset()
+    try:
+        before = _dt.now()
+        r = C.api(ctx, case["f"], None)
+        after = _dt.now()
+        utc = _dt.now(_tz.utc).replace(tzinfo=None)
+    finally:
+        if old is None:
+            os.environ.pop("TZ", None)
+        else:
+            os.environ["TZ"] = old
+        time.tzset()
+    key = "%s|%s|real-clock" % (case["c"], case["f"])
+    cls = case["c"] + "/ts-omitted/real-clock"
+    if before.date() == utc.date() or abs((before - utc).total_seconds()) < 11 * 3600:
+        return {"st": "inconc", "msg": "could not move the zone of this process away from UTC (tzset)"}
+    ctx["mon"].events["real_clock_call"] += 1
+    got = C.resv(r)
+    exps = [expected(case["c"], case["dow"], x) for x in (before, after)]
+    if got in exps:
+        return C.ok(key, cls, nt=bool(ctx["mon"].case_rules), obs_={"got": V.show(got), "local": str(before), "utc": str(utc)})
+    return C.viol("%s/ts-omitted-is-not-local-now" % case["c"],
+                  "%r with the reference time omitted, local clock %s (UTC %s): expected %s, got %s via %s"
+                  % (case["f"], before, utc, V.show(exps[0]), V.show(got), C.obs(r)), key, cls)
+
+
 def run_case(case, ctx):
+    from datetime import timedelta
     from ..attach import FixedNow
+    if case.get("real"):
+        return _real_clock(case, ctx)
     ts = C.parse_ts(case["ts"])
     fx = None
     if ts is None:
         now = C.parse_ts(case["now"])
-        fx = FixedNow(ctx["L"], now)
+        fx = FixedNow(ctx["L"], now, timedelta(minutes=case.get("off", 0)))
         ctx["mon"].events["now_injected"] += 1
     try:
         r = C.api(ctx, case["f"], ts)
     finally:
         if fx:
             fx.undo()
+            if fx.reads:
+                ctx["mon"].events["clock_read_observed"] += 1
     ref = ts if ts is not None else now
     exp = expected(case["c"], case["dow"], ref)
     got = C.resv(r)
-    key = "%s|%s|%s" % (case["c"], case["f"], case["ts"] or "now=" + case["now"])
+    key = "%s|%s|%s" % (case["c"], case["f"], case["ts"] or "now=%s%+d" % (case["now"], case.get("off", 0)))
     cls = case["c"] + ("" if case["ts"] else "/ts-omitted")
     if got == exp:
         return C.ok(key, cls, nt=bool(ctx["mon"].case_rules), obs_={"got": V.show(got), "production": C.obs(r)["production"]})
     kind = "wrong-date" if (got and got[0] == "T" and V.dated(got)) else "no-date"
+    if ts is None:
+        kind += "/ts-omitted"
     return C.viol("%s/%s" % (case["c"], kind),
-                  "%r at %s: expected %s, got %s via %s" % (case["f"], ref, V.show(exp), V.show(got), C.obs(r)),
+                  "%r at %s%s: expected %s, got %s via %s" % (case["f"], ref, "" if ts is not None else " (omitted; host %+d min from UTC)" % case.get("off", 0),
+                                                              V.show(exp), V.show(got), C.obs(r)),
                   key, cls)
 
 
@@ -134,3 +182,6 @@ def post_check(results, summaries, events, rules, tier):
     silent = [n for n in need if not rules.get(n)]
     if silent:
         yield ("inconclusive", "rules never observed to fire: %s" % silent)
+    for e in ("now_injected", "clock_read_observed", "real_clock_call"):
+        if not events.get(e):
+            yield ("inconclusive", "omitted-reference-time monitor: event %r never observed" % e)
